@@ -37,7 +37,7 @@ var defects = []string{"import-cycle", "import-self", "include-cycle", "typedef-
 	"dangling-uses-augment-absolute", "illegal-config-in-remote-grouping", "illegal-default-in-remote-grouping",
 	"dangling-unique-last", "dangling-unique-inner", "dangling-unique-skips-choice", "dangling-unique-via-list", "dangling-unique-non-leaf",
 	"odd-extension-prefix", "odd-extension-name", "illegal-grouping-uses-deprecated-grouping", "include-self", "dangling-import-include-chain", "illegal-xpath-prefix-twin",
-	"odd-feature-chain-into-other-module", "odd-first-use-of-missing-module-when-built"}
+	"odd-feature-chain-into-other-module", "odd-first-use-of-missing-module-when-built", "odd-deviations-that-do-not-commute"}
 
 func str(s string) *sg.TypeSpec { return &sg.TypeSpec{Name: s} }
 
@@ -99,8 +99,8 @@ func inject(mods []*sg.Mod, d string, pick func(n int) int) {
 		// submodules are appended by the caller through extra modules
 	case "include-self", "dangling-import-include-chain":
 		host.Includes = append(host.Includes, "sa")
-	case "illegal-xpath-prefix-twin", "odd-feature-chain-into-other-module":
-		// handled by the caller (two extra modules)
+	case "illegal-xpath-prefix-twin", "odd-feature-chain-into-other-module", "odd-deviations-that-do-not-commute":
+		// handled by the caller (extra modules)
 	case "typedef-cycle-used":
 		m.Typedefs = append(m.Typedefs, &sg.Typedef{Name: "cyc-a", Type: str("cyc-b")}, &sg.Typedef{Name: "cyc-b", Type: str("cyc-a")})
 		host.Nodes[0].Kids = append(host.Nodes[0].Kids, &sg.Node{Kind: "leaf", Name: "cyc-leaf", Type: str("cyc-a")})
@@ -362,6 +362,20 @@ func extraMods(c Case) []*sg.Mod {
 		fb := &sg.Mod{Name: "zfb", Prefix: "zfb", Features: []*sg.Feature{{Name: "cyc-real"}},
 			Nodes: []*sg.Node{{Kind: "container", Name: "zfb-top", Kids: []*sg.Node{{Kind: "leaf", Name: "z", Type: str("string"), IfFeatures: []string{"cyc-real"}}}}}}
 		return append(append([]*sg.Mod(nil), mods...), fa, fb)
+	case "odd-deviations-that-do-not-commute":
+		// two modules that know nothing of each other deviate the same leaf of a third, one adding a default, the other
+		// replacing it (or: one adding units, the other deleting them), and a fourth module imports both: in one order the
+		// set compiles, in the other it does not - it is the same order on every run, whatever it is
+		tgt := &sg.Mod{Name: "zdt", Prefix: "zdt", Nodes: []*sg.Node{{Kind: "container", Name: "zdt-top", Kids: []*sg.Node{{Kind: "leaf", Name: "x", Type: str("string")}}}}}
+		imp := []sg.Import{{Mod: "zdt", Prefix: "zdt"}}
+		st := [][2]string{{`default "from-a";`, `default "from-b";`}, {`units "from-a";`, `units "from-b";`}}[len(mods)%2]
+		da := &sg.Mod{Name: "zda", Prefix: "zda", Imports: imp, Deviations: []*sg.Deviation{{Target: "/zdt:zdt-top/zdt:x", Deviates: []sg.Deviate{{Kind: "add", Stmts: []string{st[0]}}}}}}
+		db := &sg.Mod{Name: "zdb", Prefix: "zdb", Imports: imp, Deviations: []*sg.Deviation{{Target: "/zdt:zdt-top/zdt:x", Deviates: []sg.Deviate{{Kind: "replace", Stmts: []string{st[1]}}}}}}
+		both := &sg.Mod{Name: "zaa", Prefix: "zaa", Imports: []sg.Import{{Mod: "zdb", Prefix: "zdb"}, {Mod: "zda", Prefix: "zda"}}}
+		if len(mods)%3 == 0 {
+			both.Imports[0], both.Imports[1] = both.Imports[1], both.Imports[0]
+		}
+		return append(append([]*sg.Mod(nil), mods...), tgt, da, db, both)
 	case "belongs-to-missing":
 		return append(append([]*sg.Mod(nil), mods...), &sg.Mod{Name: "orphan", Prefix: "own", BelongsTo: "no-such-module"})
 	case "illegal-config-in-remote-grouping", "illegal-default-in-remote-grouping":
